@@ -511,8 +511,66 @@ class ProgGen:
         return self._do({"f": "smul", "a": [i], "c": cc}, (lambda V: V[i] * c) if side else (lambda V: c * V[i]),
                         lambda r: ("dense", c * x.to_numpy(), None), "smul", (i,))
 
+    def _trace_bad_dims(self):
+        """ill-defined traces every code path has to reject: a traced pair whose common charge has different dimensions on the two legs —
+        one pair, or two pairs with exchanged dimensions (then the products over the pairs coincide block by block)"""
+        rng, yastn, cfg = self.rng, self.yastn, self.cfg
+        s0 = rng.choice([1, -1])
+        X = tgen.rand_leg(rng, cfg, self.symname, s=s0, max_dim=4)
+        for _ in range(20):
+            D2 = tuple(rng.randint(1, 4) for _ in X.D)
+            if D2 != tuple(X.D):
+                break
+        else:
+            return None
+        Y = yastn.Leg(cfg, s=s0, t=X.t, D=D2)
+        kind = rng.choice(["one-pair", "exchanged", "exchanged"])
+        extra = self.fresh_legs(rng.randint(0, 1))
+        if kind == "one-pair":
+            legs, axes = [X, Y.conj()] + extra, ((0,), (1,))
+        else:
+            legs, axes = [X, Y, Y.conj(), X.conj()] + extra, ((0, 1), (2, 3))
+        a = tgen.rand_tensor(rng, cfg, self.symname, legs, cplx=self.cplx, n=None if extra else cfg.sym.zero(), drop=0.0, allow_empty=False)
+        if a.size == 0:
+            return None
+        ns = cfg.sym.NSYM
+        clash = False
+        for ta, Da in zip(a.struct.t, a.struct.D):
+            ca = [tuple(ta[k * ns:(k + 1) * ns]) for k in range(len(Da))] if ns else [()] * len(Da)
+            if all(ca[p] == ca[q] for p, q in zip(*axes)) and any(Da[p] != Da[q] for p, q in zip(*axes)):
+                clash = True
+        if not clash:
+            return None
+        i = self._push({"f": "input", "a": [], "tensor": tgen.to_model(a)}, a, opname="input")
+        msg = (f"trace over pairs of legs whose common charge sectors have different dimensions ({kind}: {tuple(X.D)} against {D2}) "
+               "was computed instead of being rejected")
+        return self._do({"f": "trace", "a": [i], "axes": [list(axes[0]), list(axes[1])]}, lambda V: V[i].trace(axes=axes),
+                        lambda r: ("must-reject", msg), "trace_bad_dims", (i,), True)
+
+    def op_elementwise(self, mal):
+        """element-wise functions of the stored blocks against NumPy on the dense array (functions with f(0) = 0)"""
+        rng = self.rng
+        i = self.pick()
+        if i is None:
+            return None
+        x = self.vals[i]
+        c = rng.choice([0, 0, 1, 2])
+        table = [("abs", lambda a: abs(a), lambda d: np.abs(d)), ("real", lambda a: a.real(), lambda d: np.real(d)),
+                 ("imag", lambda a: a.imag(), lambda d: np.imag(d)),
+                 ("sqrt-abs", lambda a: abs(a).sqrt(), lambda d: np.sqrt(np.abs(d))),
+                 (f"reciprocal(cutoff={c})", lambda a: a.reciprocal(cutoff=c), lambda d: np.where(np.abs(d) > c, 1 / np.where(d == 0, 1, d), 0)),
+                 (f"rsqrt-abs(cutoff={c})", lambda a: abs(a).rsqrt(cutoff=c), lambda d: np.where(np.abs(d) > c, 1 / np.sqrt(np.where(d == 0, 1, np.abs(d))), 0)),
+                 ("pow2", lambda a: a ** 2, lambda d: d ** 2), ("div", lambda a: a / 4, lambda d: d / 4)]
+        name, fn, ref = rng.choice(table)
+        return self._do(None, lambda V: fn(V[i]), lambda r: ("dense", ref(x.to_numpy()), dict(enumerate(x.get_legs(native=True)))),
+                        "elementwise_" + name.split("(")[0], (i,))
+
     def op_trace(self, mal):
         rng = self.rng
+        if rng.random() < (0.3 if mal else 0.04):
+            r = self._trace_bad_dims()
+            if r is not None or mal:
+                return r
         cands = []
         for i in self.tensors():
             x = self.vals[i]
